@@ -135,7 +135,10 @@ def betweenness_wei(G):
             if np.isinf(np.min(D[S])):  # some nodes cannot be reached
                 Q[:q + 1], = np.where(np.isinf(D))  # these are first in line
                 break
-            V, = np.where(D == np.min(D[S]))
+            # nodes at the minimal temporary distance; settled nodes are excluded
+            # explicitly because a length that is absorbed in floating point
+            # (D[v] + G1[v, w] == D[v]) puts w at the distance of settled nodes
+            V, = np.where(np.logical_and(D == np.min(D[S]), S))
 
         DP = np.zeros((n,))
         for w in Q[:n - 1]:
@@ -329,7 +332,10 @@ def edge_betweenness_wei(G):
             if np.isinf(np.min(D[S])):  # some cannot be reached
                 Q[:q + 1], = np.where(np.isinf(D)) # these are first in line.
                 break
-            V, = np.where(D == np.min(D[S]))
+            # nodes at the minimal temporary distance; settled nodes are excluded
+            # explicitly because a length that is absorbed in floating point
+            # (D[v] + G1[v, w] == D[v]) puts w at the distance of settled nodes
+            V, = np.where(np.logical_and(D == np.min(D[S]), S))
 
         DP = np.zeros((n,))  # dependency
         for w in Q[:n - 1]:
